@@ -93,6 +93,23 @@ CLAIMED = {
              "(negative adjustments included) x short/exact/long packets, with an oracle that recomputes the consumed width from "
              "the definition and the decoded values.",
         design="§7 C14", technique="Lean 4 proof (per-field cursor lemma lifted over the flattened entry list) + correspondence check"),
+    "C01": dict(
+        text="end_to_end: for every definition, well-formed stream with prefixes, source kind and fragmentation, the mirror of "
+             "packet_generator yields exactly refSemantics = frame into the packets the length fields define, give each packet "
+             "alone the outcome of the big-step specification, deliver it, stop at the first raising packet (composition of "
+             "C02.frame_exact and C11.pointwise); per_packet ties each packet's outcome to the unique Decodes outcome (C05); "
+             "field_seam shows fields are decoded at prefix sums of computed widths with exactly the earlier values in scope "
+             "(C14); field values are covered by C03/C04/C06/C07/C08. Tied to the code by random XTCE documents written as XML, "
+             "loaded by the real loader, and streams delivered through all three source kinds; the proved model is the oracle.",
+        design="§7 C01", technique="Lean 4 proof (composition of the component theorems) + correspondence check"),
+    "C11": dict(
+        text="pointwise (with combining off, the event stream is the concatenation of what each packet yields on its own, up to "
+             "the first raising packet), concat (streams compose), error_in_place, interleave (for any schedule of next() calls "
+             "over any number of generators, each generator's remaining items are its solo items minus the number of times it "
+             "was advanced). Aliasing and mutation of the shared definition are Python object-model matters: the harness "
+             "advances 2..4 real generators over one definition object in PRNG-chosen interleavings and compares a structural "
+             "snapshot of the definition before and after.",
+        design="§7 C11", technique="Lean 4 proof (list induction) + correspondence check on real generator objects"),
 }
 
 NOT_YET = "check not built yet (work in progress; see DESIGN.md §11 build order)"
